@@ -80,6 +80,8 @@ def oracle_verdict(o):
     if o is None:
         return None
     bad = o.get("oracle") == "BAD" or o.get("oracle2") == "BAD"
+    if o.get("kind") == "READ" and o.get("spec") == "BAD":
+        return "a fully synced directory does not read back as the script specifies (metadata, last hard state, entry log of spec_run)"
     if o.get("kind") == "K":
         if o.get("durable") == "BAD":
             return ("process-kill image taken when a Save/SaveSnapshot returned: reopening does not return every entry of the "
@@ -836,6 +838,8 @@ def run(ctx):
                     stats["kill_images"] += 1
                 if kind == "T":
                     stats["truncation_images"] += 1
+                if kind == "READ" and o.get("spec") == "ok":
+                    stats["reads_checked_against_spec_run"] += 1
                 if kind in ("READ", "K", "T") or "err:" in v or (kind == "Z" and "repair" in v):
                     stats["nontrivial"] += 1
                 ov = oracle_verdict(o)
